@@ -104,7 +104,7 @@ fn parts_json(p: &PurlParts) -> String {
 
 fn shape_kind<T>() -> &'static str {
     let n = std::any::type_name::<T>();
-    if n.ends_with("PackageType") && n.starts_with("purl::") {
+    if n == "purl::package_type::PackageType" {
         "typed"
     } else if n == "alloc::string::String" || n.starts_with("smartstring::") || n.starts_with("alloc::borrow::Cow<") {
         "generic"
